@@ -133,3 +133,60 @@ def check_sig_loop(rep, rule, g, pf):
     for a in accs:
         rep.check(a not in after, rule, '%s:weight-needs-verify' % en,
                   'a signer\'s weight is added only after ed25519_verify in the same iteration', site(g, g.ctxs[a[0]], a[1]))
+
+
+CTOR_KEYS = ('Epoch', 'PreviousSignerRetention', 'DomainSeparator', 'MinimumRotationDelay', 'Interfaces_Owner', 'Interfaces_Operator')
+
+
+def completeness(rep, rule, g, pf, extra=()):
+    """structural half of 'every honest proof with sufficient weight is accepted': the only input-dependent reasons
+    for which the entry refuses a call, and the only arithmetic traps on its accept path, are the expected ones."""
+    en = g.entry
+
+    def allowed(c):
+        if c[0] == 'absent' and c[1][0] == 'skey':
+            v = key_variant(c[1][2])[0]
+            if v in CTOR_KEYS:
+                return 'constructor-initialised slot'
+            if v == 'EpochBySignersHash' and same(core(key_variant(c[1][2])[1][0]), pf.H):
+                return 'unknown signer set'
+        if c[0] == 'cmp' and c[1] == 'lt' and pf.is_retention(('cmp', 'le', c[3], c[2])):
+            return 'outside the retention window'
+        if c == ('absent', ('next', ('field', 'signers', pf.proof))):
+            return 'signers exhausted before the threshold was reached'
+        if c[0] == 'absent' and core(c[1])[0] == 'call' and 'checked_add' in core(c[1])[1] and pf.is_acc(c[1]):
+            return 'weight sum overflow'
+        for name, pred in extra:
+            if pred(c):
+                return name
+        return None
+    n = 0
+    for gd in rejecting_edges(g):
+        n += 1
+        why = allowed(gd.cond)
+        rep.check(why is not None, rule, '%s:unexpected-rejection:%s' % (en, fmt(gd.cond)[:60]),
+                  'every input-dependent refusal on the accept path is an expected one (%s)' % (why or 'UNEXPECTED: an honest, sufficiently signed proof may be refused here'),
+                  site(g, gd.ctx, gd.bb), fmt(gd.cond)[:240])
+    # arithmetic traps (overflow asserts) on paths that can still succeed
+    oks = set(g.ok_exit_sids())
+    for gd in guard_edges(g):
+        if gd.label != 'ok':
+            continue
+        if not (g.states_after_edges([gd.edge]) & oks):
+            continue
+        t = gd.ctx.body['blocks'][gd.bb]['term']
+        msg = t.get('msg', '')
+        okk = False
+        d = gd.D
+        if d[0] == 'field' and d[2][0] == 'bin':
+            op, a, b = d[2][1], d[2][2], d[2][3]
+            if op == 'SubWithOverflow' and is_sget(a, 'instance', 'Epoch') and is_epoch_of(b, pf.H):
+                okk = 'epoch - set epoch (the set epoch never exceeds the current epoch)'
+            for name, pred in extra:
+                if pred(('trap', op, a, b)):
+                    okk = name
+        n += 1
+        rep.check(bool(okk), rule, '%s:unexpected-trap:%s' % (en, msg[:40]),
+                  'every arithmetic trap on the accept path is an expected one (%s)' % (okk or 'UNEXPECTED: an honest proof may trap here'),
+                  site(g, gd.ctx, gd.bb), fmt(d)[:240])
+    rep.floor('%s refusal reasons inventoried' % en, n, 5)
